@@ -13,7 +13,7 @@ CONSTANTS
   MaxAttempts = 1
   FixExitOrder = TRUE
   FixReadErr = TRUE
-  FixStaleDelete = FALSE
+  FixStaleDelete = TRUE
 INVARIANT OwnResult
 INVARIANT OwnValuesPrefix
 INVARIANT ClosedAfterExit
